@@ -703,28 +703,34 @@ class E3Session(SessionBase):
         m = metric_dict(metrics)
         if rx is None:
             raise Violation('C19', 'metrics-without-propagation', f'{who} {key}')
+        # exact (unrounded) receiver values; a reported value must be a 2-decimal number within half a unit of the
+        # last place of the exact one (which way an exact .xx5 tie is rounded is not fixed by the property)
         with np.errstate(invalid='ignore'):
-            exp = {'SNR-bandwidth': round(float(np.mean(rx['snr'])), 2),
-                   'SNR-0.1nm': round(float(np.mean(rx['snr_01nm'])), 2),
-                   'OSNR-bandwidth': round(float(np.mean(rx['osnr_ase'])), 2),
-                   'OSNR-0.1nm': round(float(np.mean(rx['osnr_ase_01nm'])), 2),
-                   'lowest_SNR-0.1nm': round(float(np.min(rx['snr_01nm'])), 2),
-                   'biggest_SNR-0.1nm': round(float(np.max(rx['snr_01nm'])), 2),
-                   'reference_power': it['power'], 'path_bandwidth': want_bw}
+            exact = {'SNR-bandwidth': float(np.mean(rx['snr'])), 'SNR-0.1nm': float(np.mean(rx['snr_01nm'])),
+                     'OSNR-bandwidth': float(np.mean(rx['osnr_ase'])), 'OSNR-0.1nm': float(np.mean(rx['osnr_ase_01nm'])),
+                     'lowest_SNR-0.1nm': float(np.min(rx['snr_01nm'])), 'biggest_SNR-0.1nm': float(np.max(rx['snr_01nm']))}
+        verbatim = {'reference_power': it['power'], 'path_bandwidth': want_bw}
         names = {'pdl': 'PDL_penalty', 'chromatic_dispersion': 'CD_penalty', 'pmd': 'PMD_penalty'}
         for imp, name in names.items():
             if imp in rx['penalties']:
-                v = round(float(np.mean(rx['penalties'][imp])), 2)
-                exp[name] = 'Infinity' if math.isinf(v) else v
+                v = float(np.mean(rx['penalties'][imp]))
+                if math.isinf(v):
+                    verbatim[name] = 'Infinity'
+                else:
+                    exact[name] = v
             else:
-                exp[name] = 'not evaluated'
-        for k, v in exp.items():
+                verbatim[name] = 'not evaluated'
+        for k, v in verbatim.items():
             got = m.get(k)
-            same = (got == v) or (isinstance(got, float) and isinstance(v, float) and math.isnan(got) and math.isnan(v))
-            if not same:
+            if got != v:
                 kind = 'aggregated-bandwidth-not-summed' if k == 'path_bandwidth' and len(it['ids']) > 1 else \
                     'reported-metric-differs-from-receiver'
                 raise Violation('C19', kind, f'{who} {key}.{k}: reported {got} receiver {v}')
+        for k, v in exact.items():
+            got = m.get(k)
+            if not _rounded_ok(got, v):
+                raise Violation('C19', 'reported-metric-differs-from-receiver', f'{who} {key}.{k}: reported {got} '
+                                f'receiver {v!r}')
 
     def _check_csv(self, out, data):
         doc = results_to_json(out['result'])
@@ -777,11 +783,12 @@ class E3Session(SessionBase):
             if row['spectrum (N,M)'] != f'{it["N"]}, {it["M"]}':
                 raise Violation('C19', 'csv-spectrum-wrong', f'{who}: {row["spectrum (N,M)"]} vs {it["N"]}, {it["M"]}')
             rx = it['rx']
-            snr_min = round(float(np.min(rx['snr_01nm'])), 2)
-            if float(row['SNR-0.1nm (min)']) != snr_min or \
-                    float(row['SNR-0.1nm (average)']) != round(float(np.mean(rx['snr_01nm'])), 2) or \
-                    float(row['OSNR-0.1nm (average)']) != round(float(np.mean(rx['osnr_ase_01nm'])), 2):
-                raise Violation('C19', 'csv-metric-differs-from-receiver', f'{who}: {row["SNR-0.1nm (min)"]} vs {snr_min}')
+            snr_min = float(row['SNR-0.1nm (min)'])
+            if not _rounded_ok(snr_min, float(np.min(rx['snr_01nm']))) or \
+                    not _rounded_ok(float(row['SNR-0.1nm (average)']), float(np.mean(rx['snr_01nm']))) or \
+                    not _rounded_ok(float(row['OSNR-0.1nm (average)']), float(np.mean(rx['osnr_ase_01nm']))):
+                raise Violation('C19', 'csv-metric-differs-from-receiver', f'{who}: {row["SNR-0.1nm (min)"]} vs '
+                                f'{float(np.min(rx["snr_01nm"]))!r}')
             thr = it['rq'].OSNR + margin
             if abs(float(row['min required OSNR (inc. margin)']) - thr) > 1e-9:
                 raise Violation('C19', 'csv-threshold-excludes-margin', f'{who}: {row["min required OSNR (inc. margin)"]} '
@@ -790,8 +797,9 @@ class E3Session(SessionBase):
                 raise Violation('C19', 'csv-pass-flag-inconsistent', f'{who}: Pass?={row["Pass?"]} min GSNR {snr_min} '
                                 f'threshold {thr}')
             if it['bidir'] and it['rrx'] is not None:
-                rmin = round(float(np.min(it['rrx']['snr_01nm'])), 2)
-                if row['reversed path SNR-0.1nm (min)'] == '' or float(row['reversed path SNR-0.1nm (min)']) != rmin:
+                rmin = float(np.min(it['rrx']['snr_01nm']))
+                if row['reversed path SNR-0.1nm (min)'] == '' or \
+                        not _rounded_ok(float(row['reversed path SNR-0.1nm (min)']), rmin):
                     raise Violation('C19', 'csv-reverse-metric-wrong', f'{who}: {row["reversed path SNR-0.1nm (min)"]} '
                                     f'vs {rmin}')
 
@@ -879,6 +887,15 @@ class E3Session(SessionBase):
     def finish(self):
         TAP.reset()
         gn.reset_process_globals()
+
+
+def _rounded_ok(got, exact):
+    """`got` is `exact` rounded to two decimals (either way at an exact tie)"""
+    if not isinstance(got, (int, float)) or isinstance(got, bool):
+        return False
+    if math.isnan(exact) or math.isinf(exact):
+        return (math.isnan(got) and math.isnan(exact)) or got == exact
+    return abs(got - round(got, 2)) < 1e-9 and abs(got - exact) <= 0.005 + 1e-9
 
 
 def _same_value(a, b):
